@@ -359,6 +359,21 @@ def call(ex, st, fr, callee, last, args, argops, dest):
         if v.variant == 1:
             return v.fields[0]
         return _panic(ex, st, "called `Option::unwrap()` on a `None` value")
+    m = re.match(r"^Option::<.*>::and_then::<.*?(\{closure@.*\})>$", c)
+    if m:
+        _use("Option::and_then (closure executed from its MIR)")
+        v = args[0]
+        if v.variant == 0:
+            return _none()
+        clo = ex.prog.closures.get(norm_type(m.group(1)))
+        if clo is None:
+            return NotImplemented
+        alts = ex_call_local(ex, st, clo, [args[1], v.fields[0]], fr)
+        return _map_alts(ex, st, alts, lambda val: val)
+    if re.match(r"^Option::<.*>::unwrap_or$", c):
+        _use("Option::unwrap_or")
+        v = args[0]
+        return v.fields[0] if v.variant == 1 else args[1]
     if re.match(r"^Option::<.*>::(is_some|is_none)$", c):
         v = _deref_all(ex, st, args[0])
         return (v.variant == 1) == c.endswith("is_some")
@@ -586,6 +601,8 @@ def _slice_models(ex, st, fr, c, last, args):
         t = 0
         for i in range(8):
             t = T.add(t, T.mul(s.data[s.start + i].t, 1 << (8 * i)))
+        if not is_conc(t):
+            st.divcache[("chunk", t.get_id())] = (t, [s.data[s.start + i].t for i in range(8)])
         return IV(t, "u64")
     return NotImplemented
 
